@@ -30,18 +30,28 @@ inductive OpenResult where
 def withEncryption (usable : Str → Bool) (key : Str) : OpenResult :=
   if key.isEmpty then .fails else if usable key then .encrypted key else .fails
 
-/-- fromURL: `encrypt` ∈ {on, aesgcm} switches encryption on; the key is `encrypt_key`, else the
-    FSCACHE_ENCRYPT_KEY environment variable (cmp.Or); an absent (empty) parameter or "off" asks for none;
-    any other spelling fails at open (repair b55c81c — the pinned tree stored plaintext for "ON", "true", …) -/
-def fromURL (usable : Str → Bool) (encryptParam dsnKey envKey : Str) : OpenResult :=
-  if encryptParam = (str% "on") || encryptParam = (str% "aesgcm") then
-    withEncryption usable (if dsnKey.isEmpty then envKey else dsnKey)
-  else if encryptParam = [] || encryptParam = (str% "off") then .plaintext
-  else .fails
+/-- fromURL: the query must parse (url.ParseQuery: a pair with ";" or a bad escape is an error, not a pair to skip);
+    `encrypt` ∈ {on, aesgcm} switches encryption on; the key is `encrypt_key`, else the FSCACHE_ENCRYPT_KEY
+    environment variable (cmp.Or); an ABSENT parameter or "off" asks for none; any other spelling — the empty value of
+    `encrypt=` or of a bare `encrypt` included — fails at open (repair b55c81c and the sixth hunt's: the pinned tree
+    stored plaintext for "ON", "true", for `encrypt=on;encrypt_key=…` and for `encrypt&encrypt_key=…`).
+    `encryptParam = none`: no such parameter. -/
+def fromURL (usable : Str → Bool) (queryOK : Bool) (encryptParam : Option Str) (dsnKey envKey : Str) : OpenResult :=
+  if !queryOK then .fails else
+  match encryptParam with
+  | none => .plaintext
+  | some p =>
+    if p = (str% "on") || p = (str% "aesgcm") then
+      withEncryption usable (if dsnKey.isEmpty then envKey else dsnKey)
+    else if p = (str% "off") then .plaintext
+    else .fails
 
-/-- the executable form the correspondence check runs (`S CFGM` lines): keys are classes, "good" is usable -/
-def fromURLClass (encryptParam dsnKey envKey : String) : String :=
-  match fromURL (fun k => k = (str% "good")) encryptParam.toList dsnKey.toList envKey.toList with
+/-- the executable form the correspondence check runs (`S CFGM` lines): keys are classes, "good" is usable;
+    kind "dsn" = well-formed query, "dsnbad" = a query url.ParseQuery rejects; "-" = parameter absent, "(empty)" = present
+    without a value -/
+def fromURLClass (kind encryptParam dsnKey envKey : String) : String :=
+  let p : Option Str := if encryptParam == "-" then none else if encryptParam == "(empty)" then some [] else some encryptParam.toList
+  match fromURL (fun k => k = (str% "good")) (kind != "dsnbad") p dsnKey.toList envKey.toList with
   | .fails => "fail" | .plaintext => "plain" | .encrypted _ => "enc"
 def withEncryptionClass (key : String) : String :=
   match withEncryption (fun k => k = (str% "good")) key.toList with
@@ -63,36 +73,50 @@ theorem withEncryption_ne_plain (usable : Str → Bool) (key : Str) : withEncryp
   · simp
   · split <;> simp
 
-/-- a DSN opens a plaintext store only when its `encrypt` parameter is absent (empty) or "off": every other
-    spelling encrypts with a usable key or fails at open -/
-theorem plaintext_only_when_not_asked (usable : Str → Bool) (p dsnKey envKey : Str)
-    (h : fromURL usable p dsnKey envKey = .plaintext) : p = [] ∨ p = (str% "off") := by
+/-- a DSN opens a plaintext store only when its query is well-formed and its `encrypt` parameter is absent or "off":
+    everything else encrypts with a usable key or fails at open -/
+theorem plaintext_only_when_not_asked (usable : Str → Bool) (qok : Bool) (p : Option Str) (dsnKey envKey : Str)
+    (h : fromURL usable qok p dsnKey envKey = .plaintext) : qok = true ∧ (p = none ∨ p = some (str% "off")) := by
   unfold fromURL at h
-  split at h
-  · exact absurd h (withEncryption_ne_plain _ _)
-  · split at h
-    · rename_i h2; simpa using h2
-    · cases h
+  cases qok with
+  | false => simp at h
+  | true =>
+    refine ⟨rfl, ?_⟩
+    simp only [Bool.not_true, Bool.false_eq_true, ↓reduceIte] at h
+    cases p with
+    | none => exact Or.inl rfl
+    | some v =>
+      right
+      simp only at h
+      split at h
+      · exact absurd h (withEncryption_ne_plain _ _)
+      · split at h
+        · rename_i h2; rw [h2]
+        · cases h
 
-example : fromURL (fun _ => true) (str% "ON") (str% "k") [] = .fails ∧ fromURL (fun _ => true) (str% "off") (str% "k") [] = .plaintext ∧
-    fromURL (fun _ => true) (str% "on") [] (str% "e") = .encrypted (str% "e") := by decide
+example : fromURL (fun _ => true) true (some (str% "ON")) (str% "k") [] = .fails ∧ fromURL (fun _ => true) true (some (str% "off")) (str% "k") [] = .plaintext ∧
+    fromURL (fun _ => true) true (some (str% "on")) [] (str% "e") = .encrypted (str% "e") ∧ fromURL (fun _ => true) true (some []) (str% "k") [] = .fails ∧
+    fromURL (fun _ => true) false (some (str% "on")) (str% "k") [] = .fails ∧ fromURL (fun _ => true) true none (str% "k") [] = .plaintext := by decide
 
 /-- requesting encryption never yields a plaintext store: it encrypts with a usable key or fails -/
-theorem encryption_requested_never_plaintext (usable : Str → Bool) (p dsnKey envKey : Str)
+theorem encryption_requested_never_plaintext (usable : Str → Bool) (qok : Bool) (p dsnKey envKey : Str)
     (h : p = (str% "on") ∨ p = (str% "aesgcm")) :
-    fromURL usable p dsnKey envKey ≠ .plaintext ∧
-    (∀ k, fromURL usable p dsnKey envKey = .encrypted k → usable k = true ∧ k ≠ []) := by
+    fromURL usable qok (some p) dsnKey envKey ≠ .plaintext ∧
+    (∀ k, fromURL usable qok (some p) dsnKey envKey = .encrypted k → usable k = true ∧ k ≠ []) := by
   have hp : (decide (p = (str% "on")) || decide (p = (str% "aesgcm"))) = true := by
     rcases h with h | h <;> simp [h]
   unfold fromURL
-  simp only [hp, ↓reduceIte]
-  rcases withEncryption_cases usable (if dsnKey.isEmpty then envKey else dsnKey) with hc | ⟨hc, hu, hne⟩
-  · rw [hc]; exact ⟨by simp, by intro k hk; cases hk⟩
-  · rw [hc]
-    refine ⟨by simp, ?_⟩
-    intro k hk
-    cases hk
-    exact ⟨hu, hne⟩
+  cases qok with
+  | false => simp
+  | true =>
+    simp only [Bool.not_true, Bool.false_eq_true, ↓reduceIte, hp]
+    rcases withEncryption_cases usable (if dsnKey.isEmpty then envKey else dsnKey) with hc | ⟨hc, hu, hne⟩
+    · rw [hc]; exact ⟨by simp, by intro k hk; cases hk⟩
+    · rw [hc]
+      refine ⟨by simp, ?_⟩
+      intro k hk
+      cases hk
+      exact ⟨hu, hne⟩
 
 /-- the option form: an empty or unusable key fails at open -/
 theorem option_without_usable_key_fails (usable : Str → Bool) (key : Str) (h : key = [] ∨ usable key = false) :
